@@ -192,6 +192,34 @@ def _rewrite_stmt(fn, s: ast.stmt) -> List[ast.stmt]:
             loop = ast.copy_location(ast.For(target=s.target.elts[1], iter=s.iter.args[0], body=[inc] + list(s.body),
                                              orelse=s.orelse, type_comment=None), s)
             return [init, loop]
+    # for i in range(len(X)): .. X[i] ..   ->   for i, x in enumerate(X): .. x ..      (X a name / attribute chain that the body
+    # neither re-binds nor stores into, i not re-bound); and inside 'for i, x in enumerate(X)': X[i] -> x
+    if isinstance(s, ast.For) and isinstance(s.target, ast.Name) and isinstance(s.iter, ast.Call) and \
+            isinstance(s.iter.func, ast.Name) and s.iter.func.id == "range" and len(s.iter.args) == 1 and not s.iter.keywords and \
+            isinstance(s.iter.args[0], ast.Call) and isinstance(s.iter.args[0].func, ast.Name) and \
+            s.iter.args[0].func.id == "len" and len(s.iter.args[0].args) == 1 and _is_chain(s.iter.args[0].args[0]):
+        X = s.iter.args[0].args[0]
+        i = s.target.id
+        if _elem_reads(s.body, X, i) and _loop_keeps(s, X, [i]):
+            fn_names = {n.id for n in ast.walk(fn) if isinstance(n, ast.Name)} | {a.arg for a in ast.walk(fn) if isinstance(a, ast.arg)}
+            base = (X.attr if isinstance(X, ast.Attribute) else X.id).rstrip("s") or "elem"
+            x, k = f"{base}__e", 0
+            while x in fn_names:
+                k += 1
+                x = f"{base}__e{k}"
+            s.body = [_subst_elem(b, X, i, x) for b in s.body]
+            s.target = ast.Tuple(elts=[ast.Name(id=i, ctx=ast.Store()), ast.Name(id=x, ctx=ast.Store())], ctx=ast.Store())
+            s.iter = ast.Call(func=ast.Name(id="enumerate", ctx=ast.Load()), args=[X], keywords=[])
+            ast.fix_missing_locations(s)
+            return _rewrite_stmt(fn, s)
+    if isinstance(s, ast.For) and isinstance(s.iter, ast.Call) and isinstance(s.iter.func, ast.Name) and \
+            s.iter.func.id == "enumerate" and len(s.iter.args) == 1 and not s.iter.keywords and isinstance(s.target, ast.Tuple) and \
+            len(s.target.elts) == 2 and all(isinstance(e, ast.Name) for e in s.target.elts) and _is_chain(s.iter.args[0]):
+        X = s.iter.args[0]
+        i, x = s.target.elts[0].id, s.target.elts[1].id
+        if _elem_reads(s.body, X, i) and _loop_keeps(s, X, [i, x]):
+            s.body = [_subst_elem(b, X, i, x) for b in s.body]
+            ast.fix_missing_locations(s)
     # for v in [a, b]: BODY   ->   v = a; BODY; v = b; BODY   (short displays; BODY without break / continue of its own level)
     if isinstance(s, ast.For) and isinstance(s.iter, (ast.List, ast.Tuple)) and 1 <= len(s.iter.elts) <= 4 and not s.orelse and \
             isinstance(s.target, ast.Name) and not any(isinstance(e, ast.Starred) for e in s.iter.elts) and \
@@ -322,6 +350,60 @@ def _rewrite_stmt(fn, s: ast.stmt) -> List[ast.stmt]:
 
 COMPREHENSIONS_AS_LOOPS = True
 IFEXP_AS_STATEMENT = True
+
+
+def _is_chain(e) -> bool:
+    while isinstance(e, ast.Attribute):
+        e = e.value
+    return isinstance(e, ast.Name)
+
+
+def _elem_reads(stmts, X, i) -> bool:
+    for b in stmts:
+        for n in ast.walk(b):
+            if isinstance(n, ast.Subscript) and isinstance(n.ctx, ast.Load) and isinstance(n.slice, ast.Name) and n.slice.id == i \
+                    and _is_chain(n.value) and ast.unparse(n.value) == ast.unparse(X):
+                return True
+    return False
+
+
+def _loop_keeps(loop, X, names) -> bool:
+    """The loop body re-binds none of the names, neither re-binds nor stores into / mutates X (no X[..] = .., X.append(..), del),
+    and defines no nested scope that could."""
+    xs = ast.unparse(X)
+    root = X
+    while isinstance(root, ast.Attribute):
+        root = root.value
+    for b in loop.body + loop.orelse:
+        for n in ast.walk(b):
+            if isinstance(n, (ast.FunctionDef, ast.AsyncFunctionDef, ast.Lambda, ast.ClassDef)):
+                return False
+            if isinstance(n, ast.Name) and isinstance(n.ctx, (ast.Store, ast.Del)) and (n.id in names or n.id == root.id):
+                return False
+            if isinstance(n, (ast.Attribute, ast.Subscript)) and isinstance(n.ctx, (ast.Store, ast.Del)):
+                tgt = n.value if isinstance(n, ast.Subscript) else n
+                if _is_chain(tgt) and (ast.unparse(tgt) == xs or xs.startswith(ast.unparse(tgt) + ".")):
+                    return False
+                if isinstance(n, ast.Attribute) and _is_chain(n) and xs.startswith(ast.unparse(n)):
+                    return False
+            if isinstance(n, ast.Call) and isinstance(n.func, ast.Attribute) and _is_chain(n.func.value) and \
+                    ast.unparse(n.func.value) == xs and n.func.attr in ("append", "extend", "insert", "pop", "remove", "clear",
+                                                                         "sort", "reverse", "__setitem__", "__delitem__"):
+                return False
+    return True
+
+
+def _subst_elem(stmt, X, i, x):
+    xs = ast.unparse(X)
+
+    class T(ast.NodeTransformer):
+        def visit_Subscript(self, node):
+            node = self.generic_visit(node)
+            if isinstance(node.ctx, ast.Load) and isinstance(node.slice, ast.Name) and node.slice.id == i and \
+                    _is_chain(node.value) and ast.unparse(node.value) == xs:
+                return ast.copy_location(ast.Name(id=x, ctx=ast.Load()), node)
+            return node
+    return T().visit(stmt)
 
 
 def _own_level_jump(stmts) -> bool:
@@ -502,6 +584,111 @@ def _forward_callees(fn) -> bool:
     return changed
 
 
+def _forward_getattr_methods(fn) -> bool:
+    """'f = getattr(obj, "m", None); ...; if f is not None: f(args)'  ->  'if hasattr(obj, "m"): obj.m(args)' when every use of f is
+    such a None test / truth test / call, the getattr is the only definition reaching it and obj is not re-bound in between (an
+    optional method looked up once, outside a loop)."""
+    cands = {}
+    for st in ast.walk(fn):
+        if isinstance(st, ast.Assign) and len(st.targets) == 1 and isinstance(st.targets[0], ast.Name) and \
+                isinstance(st.value, ast.Call) and isinstance(st.value.func, ast.Name) and st.value.func.id == "getattr" and \
+                len(st.value.args) == 3 and not st.value.keywords and _is_chain(st.value.args[0]) and \
+                isinstance(st.value.args[1], ast.Constant) and isinstance(st.value.args[1].value, str) and \
+                st.value.args[1].value.isidentifier() and isinstance(st.value.args[2], ast.Constant) and st.value.args[2].value is None:
+            cands.setdefault(st.targets[0].id, []).append(st)
+    cands = {k: v[0] for k, v in cands.items() if len(v) == 1}
+    if not cands:
+        return False
+    # all stores of the name: exactly the one getattr
+    for n in ast.walk(fn):
+        if isinstance(n, ast.Name) and isinstance(n.ctx, (ast.Store, ast.Del)) and n.id in cands and n is not cands[n.id].targets[0]:
+            cands.pop(n.id, None)
+    for a in ast.walk(fn):
+        if isinstance(a, ast.arg) and a.arg in cands:
+            cands.pop(a.arg, None)
+    if not cands:
+        return False
+    parents = {}
+    for p_ in ast.walk(fn):
+        for c_ in ast.iter_child_nodes(p_):
+            parents[id(c_)] = p_
+    from .cfg import CFG
+    try:
+        cfg = CFG(fn)
+    except Exception:  # pragma: no cover
+        return False
+    rd = cfg.reaching()
+    changed = False
+    for name, dst in cands.items():
+        obj, attr = dst.value.args[0], dst.value.args[1].value
+        d = cfg.stmt_node.get(dst)
+        if d is None:
+            continue
+        uses = [n for n in ast.walk(fn) if isinstance(n, ast.Name) and n.id == name and isinstance(n.ctx, ast.Load)]
+        plan = []
+        ok = bool(uses)
+        root = obj
+        while isinstance(root, ast.Attribute):
+            root = root.value
+        for u in uses:
+            par = parents.get(id(u))
+            n = cfg.node_of(u)
+            if n is None or rd.get(n, {}).get(name, set()) != {d} or \
+                    rd.get(d, {}).get(root.id, set()) != rd.get(n, {}).get(root.id, set()):
+                ok = False
+                break
+            if isinstance(par, ast.Call) and par.func is u:
+                plan.append(("call", par, u))
+            elif isinstance(par, ast.Compare) and par.left is u and len(par.ops) == 1 and isinstance(par.ops[0], (ast.Is, ast.IsNot)) \
+                    and isinstance(par.comparators[0], ast.Constant) and par.comparators[0].value is None:
+                plan.append(("isnot" if isinstance(par.ops[0], ast.IsNot) else "is", par, u))
+            elif isinstance(par, (ast.If, ast.While, ast.IfExp, ast.Assert)) and par.test is u:
+                plan.append(("truth", par, u))
+            elif isinstance(par, ast.UnaryOp) and isinstance(par.op, ast.Not):
+                plan.append(("not", par, u))
+            elif isinstance(par, ast.BoolOp):
+                plan.append(("boolop", par, u))
+            else:
+                ok = False
+                break
+        if not ok:
+            continue
+
+        def has():
+            return ast.Call(func=ast.Name(id="hasattr", ctx=ast.Load()), args=[copy.deepcopy(obj), ast.Constant(value=attr)],
+                            keywords=[])
+        for kind, par, u in plan:
+            if kind == "call":
+                par.func = ast.copy_location(ast.Attribute(value=copy.deepcopy(obj), attr=attr, ctx=ast.Load()), u)
+            elif kind in ("is", "isnot"):
+                new = has() if kind == "isnot" else ast.UnaryOp(op=ast.Not(), operand=has())
+                gp = parents.get(id(par))
+                _replace_child(gp, par, ast.copy_location(new, par))
+            elif kind == "truth":
+                par.test = ast.copy_location(has(), u)
+            elif kind == "not":
+                par.operand = ast.copy_location(has(), u)
+            elif kind == "boolop":
+                par.values = [ast.copy_location(has(), u) if v is u else v for v in par.values]
+        # the look-up itself stays as a dead store only if something else still reads it: nothing does
+        dst.value = ast.copy_location(ast.Constant(value=None), dst.value)
+        ast.fix_missing_locations(fn)
+        changed = True
+    return changed
+
+
+def _replace_child(parent, old, new):
+    for f, v in ast.iter_fields(parent):
+        if v is old:
+            setattr(parent, f, new)
+            return
+        if isinstance(v, list):
+            for i, x in enumerate(v):
+                if x is old:
+                    v[i] = new
+                    return
+
+
 _PURE_PREDICATES = {"isinstance", "hasattr", "callable", "issubclass"}
 
 
@@ -595,6 +782,7 @@ def _forward_flags(fn) -> bool:
 
 def normalise_function(fn):
     _normalise_function_once(fn)
+    _forward_getattr_methods(fn)
     _forward_flags(fn)
     t = _forward_tuples(fn)
     sl = _forward_slices(fn)
